@@ -37,6 +37,22 @@ type Elem struct {
 	Inside bool // nodes: inside the KeepBounds box
 	Refs   []Ref
 	Tagged bool
+	Edge   int `json:",omitempty"` // nodes: exactly on the border of the box: 1 top, 2 right, 3 corner, 4 bottom, 5 left
+}
+
+// edgeCoord is the (lat, lon) of a node on the border of the [-1,1]^2 box.
+func edgeCoord(edge int) (float64, float64) {
+	switch edge {
+	case 1:
+		return 1, 0.5
+	case 2:
+		return 0.5, 1
+	case 3:
+		return 1, 1
+	case 4:
+		return -1, 0.5
+	}
+	return 0.5, -1
 }
 
 // Ref is a reference to another element.
@@ -66,6 +82,9 @@ func (d Doc) XML() string {
 			lat, lon := outsideCoord(e.ID), outsideCoord(e.ID)
 			if e.Inside {
 				lat, lon = 0, 0
+			}
+			if e.Edge > 0 {
+				lat, lon = edgeCoord(e.Edge)
 			}
 			fmt.Fprintf(&b, `<node id="%d" lat="%g" lon="%g">%s</node>`+"\n", e.ID, lat, lon, tag(e))
 		case 'w':
@@ -103,6 +122,9 @@ func (d Doc) String() string {
 		}
 		if e.Kind == 'n' && e.Inside {
 			x += "@"
+		}
+		if e.Kind == 'n' && e.Edge > 0 {
+			x += fmt.Sprintf("@edge%d", e.Edge)
 		}
 		s = append(s, x)
 	}
@@ -159,7 +181,7 @@ func lfp(d Doc, keep int) map[string]bool {
 			return !e.Tagged
 		}
 		if e.Kind == 'n' {
-			return e.Inside
+			return e.Inside || e.Edge > 0 // the box is closed: a node on its border is selected
 		}
 		for _, r := range e.Refs {
 			if s[r.key()] {
@@ -333,6 +355,35 @@ func scenarios(tier string) []Scenario {
 			}
 			out = append(out, Scenario{"extract", q, keepTags, 1, seqBound, 1, false})
 		})
+	}
+	// nodes exactly on the border of the box (closed box: selected), and ways
+	// that touch the box only there; ways of a single node
+	for edge := 1; edge <= 5; edge++ {
+		on := Elem{Kind: 'n', ID: 1, Edge: edge}
+		for _, d := range []Doc{
+			{on, w(1, 1, 2), n(2, false)},
+			{on, w(1, 1, 2), n(2, false), r(1, Ref{'w', 1})},
+		} {
+			permutations(d, func(p Doc) {
+				out = append(out, Scenario{"extract", p, keepBounds, 1, seqBound, 1, false})
+			})
+			out = append(out, Scenario{"pbf", d, keepBounds, 1, 0, 1, false})
+		}
+	}
+	tag := func(e Elem) Elem { e.Tagged = true; return e }
+	for _, d := range []Doc{
+		{n(4, false), tag(w(11, 4))},
+		{n(4, false), w(11, 4), tag(r(5, Ref{'w', 11}))},
+		{n(4, false), w(11, 4), n(5, true)},
+		{n(4, true), w(11, 4), r(5, Ref{'w', 11})},
+	} {
+		permutations(d, func(p Doc) {
+			out = append(out, Scenario{"extract", p, keepTags, 1, seqBound, 1, false})
+			out = append(out, Scenario{"extract", p, keepBounds, 1, seqBound, 1, false})
+			out = append(out, Scenario{"extract", p, keepAll, 1, seqBound, 1, false})
+		})
+		out = append(out, Scenario{"pbf", d, keepTags, 1, 0, 1, false})
+		out = append(out, Scenario{"filter", d, keepTags, 1, 1, 1, false})
 	}
 	// unusual but legal identifiers: negative ids (editors number new objects
 	// downwards from -1) and ids beyond 2^40
@@ -753,7 +804,7 @@ func main() {
 		return
 	}
 	rep := report.New("C18", tier, "model_checking")
-	rep.Rule = "E3: instrumented encoding/osm (sync.Mutex/RWMutex, errgroup, channel, go rewritten to the vrt shim) under a cooperative scheduler; stateless DFS over all schedules with <= bound preemptions (scheduling point before every lock/unlock/send/recv/close/spawn/wait); sequential tier: every dangling-free document over 3 nodes, 2 ways, 2 relations with <= 4(5) elements in every element order x {KeepAll, KeepBounds, KeepTags on each element}, one worker, bound 1(2); concurrent tier: 10 sharp documents x 2-3 workers x keep functions, bound 1-2(2-3); Filter: map-iteration orders as environment choices, deviation bound 1(2). sequential tier: a second extraction from the same reader must agree; four documents with a dangling reference shared by two elements and four with negative ids / ids beyond 2^40 in every element order (also as PBF). Filter also on data with dangling references. PBF: the same documents (all element orders up to 3 elements) written as OSM PBF by an independent minimal writer and extracted with ExtractPBF, free-running: least fixpoint, Check, and the same identities and references as the XML extraction. Filter history: the input data set is unchanged afterwards (every field) and a second Filter with another keep function on the same input is its least fixpoint. Oracle per execution: Nodes/Ways/Relations = sequential least fixpoint, Check()==nil for dangling-free documents, no panic/deadlock/livelock; Filter = fixpoint, idempotent, closed, subset. Non-trivial = executions with at least one deviation."
+	rep.Rule = "E3: instrumented encoding/osm (sync.Mutex/RWMutex, errgroup, channel, go rewritten to the vrt shim) under a cooperative scheduler; stateless DFS over all schedules with <= bound preemptions (scheduling point before every lock/unlock/send/recv/close/spawn/wait); sequential tier: every dangling-free document over 3 nodes, 2 ways, 2 relations with <= 4(5) elements in every element order x {KeepAll, KeepBounds, KeepTags on each element}, one worker, bound 1(2); concurrent tier: 10 sharp documents x 2-3 workers x keep functions, bound 1-2(2-3); Filter: map-iteration orders as environment choices, deviation bound 1(2). sequential tier: a second extraction from the same reader must agree; documents with a node exactly on each side / corner of the box and with single-node ways in every element order; four documents with a dangling reference shared by two elements and four with negative ids / ids beyond 2^40 in every element order (also as PBF). Filter also on data with dangling references. PBF: the same documents (all element orders up to 3 elements) written as OSM PBF by an independent minimal writer and extracted with ExtractPBF, free-running: least fixpoint, Check, and the same identities and references as the XML extraction. Filter history: the input data set is unchanged afterwards (every field) and a second Filter with another keep function on the same input is its least fixpoint. Oracle per execution: Nodes/Ways/Relations = sequential least fixpoint, Check()==nil for dangling-free documents, no panic/deadlock/livelock; Filter = fixpoint, idempotent, closed, subset. Non-trivial = executions with at least one deviation."
 	rep.Assumptions = []string{"ExtractPBF is exercised free-running only (osmpbf owns goroutines the scheduler does not control); it shares extract(), which is", "memory-model effects below the hooked synchronisation operations are covered only by a separate -race pass", "the free-running package's outcome must be among the explored outcomes (shim conformance)"}
 	sc := scenarios(tier)
 	rep.Set("scenarios", len(sc))
